@@ -74,7 +74,11 @@ pub struct Launcher {
 
 impl Launcher {
     fn command(&self, bin: &str, xdg: &Paths, cwd: &Path, cpus: usize, rotate: usize) -> Command {
-        let mut cmd = Command::new(self.bin_dir.join(bin));
+        self.command_path(&self.bin_dir.join(bin), xdg, cwd, cpus, rotate)
+    }
+
+    fn command_path(&self, path: &Path, xdg: &Paths, cwd: &Path, cpus: usize, rotate: usize) -> Command {
+        let mut cmd = Command::new(path);
         cmd.env_clear()
             .env("XDG_DATA_HOME", &xdg.root)
             .env("HOME", cwd)
@@ -151,7 +155,23 @@ impl Launcher {
             return ChildOut { exit: Exit::SpawnFailed { why: e.to_string() }, events: vec![], stdout: String::new(), stderr: String::new() };
         }
         let _ = std::fs::remove_file(&log);
-        let mut cmd = self.command("simnode", xdg, work, session.cpus, rotate);
+        let sys = session.faults.iter().find_map(|f| match f {
+            crate::script::Fault::Syscall { call, when, errno } => Some((call.clone(), *when, errno.clone())),
+            _ => None,
+        });
+        let strace_out = work.join(format!("{tag}.strace"));
+        let mut cmd = match &sys {
+            None => self.command("simnode", xdg, work, session.cpus, rotate),
+            Some((call, when, errno)) => {
+                let mut c = self.command_path(Path::new("/usr/bin/strace"), xdg, work, session.cpus, rotate);
+                let inject = match errno {
+                    None => format!("inject={call}:signal=SIGKILL:when={when}"),
+                    Some(e) => format!("inject={call}:error={e}:when={when}"),
+                };
+                c.arg("-f").arg("-qq").arg("-o").arg(&strace_out).arg("-e").arg(format!("trace={call}")).arg("-e").arg(inject).arg(self.bin_dir.join("simnode"));
+                c
+            }
+        };
         cmd.arg(&script).arg(&log);
         let child = match cmd.spawn() {
             Ok(c) => c,
@@ -171,6 +191,16 @@ impl Launcher {
         }
         let _ = std::fs::remove_file(&script);
         let _ = std::fs::remove_file(&log);
+        if let Some((call, when, errno)) = &sys {
+            // the injector is outside the child: record whether it fired from strace's own log
+            let text = std::fs::read_to_string(&strace_out).unwrap_or_default();
+            let _ = std::fs::remove_file(&strace_out);
+            let injected = text.contains("(INJECTED)") || text.contains("+++ killed by SIGKILL +++");
+            if injected {
+                let kind = if errno.is_some() { "sys-error" } else { "sys-kill" };
+                events.push(Event::FaultFired { kind: kind.into(), point: format!("{call}{}", errno.as_ref().map(|e| format!(":{e}")).unwrap_or_default()), k: *when });
+            }
+        }
         ChildOut { exit, events, stdout, stderr }
     }
 
